@@ -405,3 +405,10 @@ where
         )
     }
 }
+
+#[cfg(noodles_verif)]
+#[doc(hidden)]
+pub mod verif_hooks {
+    //! Re-exports for verification harnesses (`--cfg noodles_verif`).
+    pub use super::num::{read_itf8, read_ltf8, read_uint7};
+}
